@@ -60,6 +60,7 @@ func init() {
 			obReaderUnaltered(c, "C01.3c", r)
 			obPushBack(c, "C01.7", r)
 			obApplyPostings(c, "C01.4", r)
+			obCacheMergeOnly(c, "C01.8")
 			obSaveMonotone(c, "C01.5", r)
 			obSign(c, "C01.6")
 		},
